@@ -157,6 +157,15 @@ def _atom_key(step: Step) -> str | None:
     return None
 
 
+def _simple_assign(n: ast.AST) -> tuple[ast.Name, ast.expr] | None:
+    """(name, value) of ``name = value`` / ``name: T = value``."""
+    if isinstance(n, ast.Assign) and len(n.targets) == 1 and isinstance(n.targets[0], ast.Name):
+        return n.targets[0], n.value
+    if isinstance(n, ast.AnnAssign) and isinstance(n.target, ast.Name) and n.value is not None:
+        return n.target, n.value
+    return None
+
+
 def _consistent(steps: list[Step], new: Step) -> bool:
     """False if ``new`` contradicts an earlier atom with no redefinition in between,
     or tests a name last bound to a constant of the other truth value."""
@@ -177,10 +186,10 @@ def _consistent(steps: list[Step], new: Step) -> bool:
         if isinstance(l, ast.Name) and isinstance(r, ast.Constant) and r.value is None:
             none_test = (l.id, isinstance(test.ops[0], ast.Is))
     for prev in reversed(steps):
-        if none_test is not None and prev.kind == "stmt" and isinstance(prev.node, ast.Assign) and len(prev.node.targets) == 1:
-            t = prev.node.targets[0]
-            if isinstance(t, ast.Name) and t.id == none_test[0]:
-                val = prev.node.value
+        sa_ = _simple_assign(prev.node) if prev.kind == "stmt" else None
+        if none_test is not None and sa_ is not None:
+            t, val = sa_
+            if t.id == none_test[0]:
                 is_none = None
                 if isinstance(val, ast.Constant):
                     is_none = val.value is None
@@ -212,16 +221,8 @@ def _consistent(steps: list[Step], new: Step) -> bool:
         b = _binds(prev)
         if b & used:
             # constant propagation for ``name = <const>`` followed by ``if name``
-            if (
-                isinstance(test, ast.Name)
-                and prev.kind == "stmt"
-                and isinstance(prev.node, ast.Assign)
-                and len(prev.node.targets) == 1
-                and isinstance(prev.node.targets[0], ast.Name)
-                and prev.node.targets[0].id == test.id
-                and isinstance(prev.node.value, ast.Constant)
-            ):
-                return bool(prev.node.value.value) == polarity
+            if isinstance(test, ast.Name) and sa_ is not None and sa_[0].id == test.id and isinstance(sa_[1], ast.Constant):
+                return bool(sa_[1].value) == polarity
             return True
     del key
     return True
